@@ -10,6 +10,7 @@ import Driver.C10Mon
 import Driver.C15
 import Driver.C06Mon
 import Driver.C17
+import Driver.C03
 open Kv
 
 structure DState where
@@ -17,6 +18,7 @@ structure DState where
   c07 : Drv.Flow.FullSt := {}
   c08 : Drv.C08.FullSt := {}
   c17 : Drv.C17.MonSt := {}
+  c03 : Drv.C03.FullSt := {}
   deriving Inhabited
 
 /-- full driver: regenerated model + monitor -/
@@ -34,6 +36,7 @@ def dispatch (st : DState) (prop : String) (l : Line) : DState × String :=
   | "C15" => (st, Drv.C15.step l)
   | "C06" => (st, Drv.C06.step l)
   | "C17" => let (s, r) := Drv.C17.step st.c17 l; ({ st with c17 := s }, r)
+  | "C03" => let (s, r) := Drv.C03.step st.c03 l; ({ st with c03 := s }, r)
   | _ => (st, "bad-op")
 
 def main : IO Unit := driverMain dispatch {}
